@@ -61,7 +61,7 @@ func runDiff(db1, db2 objects.Store, sum1, sum2 []byte) Res {
 		errCh := make(chan error, 10)
 		ch, _ := diff.DiffTables(db1, db2, tbl1, tbl2, idx1, idx2, errCh, logr.Discard())
 		evs := []diffEv{}
-		timeout := time.After(60 * time.Second)
+		timeout := hangAfter(60 * time.Second)
 	loop:
 		for {
 			select {
